@@ -10,7 +10,7 @@ META = dict(
 
 
 def run(ctx):
-    n = ctx.pick(3, 4)
+    n = ctx.pick(2, 4)
     path, _ = ctx.tlc_gen("data", "URIModelGen", consts={"N": n}, workers=4, timeout=1500)
     if not path:
         raise Infra("URIModelGen wrote no vectors")
